@@ -76,5 +76,33 @@ REGISTRY["C07"] = dict(
          "facets, delete return values) must equal the dictionary model.",
     note=_BOUNDED)
 
+REGISTRY["C09"] = dict(
+    modules=["harness.c09_scores"], e2=True,
+    technique="CrossHair symbolic query codes over the real scoring/matcher stack (score of op(a,b) vs composition of clause scores, layout independence) + z3 reals through the real bm25()",
+    text="For every generated query the score of each hit must equal the documented combination of the clause scores on the same "
+         "searcher and be identical on one- and two-segment layouts; the real bm25() function object is evaluated on z3 Reals and "
+         "shown equal to the textbook formula, monotone and positive over the whole documented domain (negations unsat).",
+    note=_BOUNDED + "  Exact real arithmetic in the SMT part; relative tolerance 1e-9 in the end-to-end part.")
+REGISTRY["C11"] = dict(
+    modules=["harness.c11_cursor"],
+    technique="CrossHair symbolic cursor programs (operation codes, skip targets, query codes) run on real matchers over real segments vs the list obtained by fresh stepping",
+    text="Every program of cursor operations over matchers compiled from real queries must leave id/score/activity and the remaining "
+         "list equal to the reference list; all_ids equals stepping; ids strictly ascend.",
+    note=_BOUNDED + "  Known findings KF-C11-1 (copy()/reset() not implemented by on-disk and array matchers) and KF-C11-2 are skipped steps.")
+
+REGISTRY["C06"] = dict(
+    modules=["harness.c06_layout"],
+    technique="CrossHair symbolic commit-cut masks and merge-pattern codes over the real writer/merge/codec stack; canonical dump vs the fewest-commit optimised build",
+    text="The same document operations are cut into commits by every (symbolic) cut mask under eight merge patterns and three codec block "
+         "limits; stored fields, lexicon, postings with positions/characters/weights, lengths, vectors, columns, sort/range/phrase/nested "
+         "results must equal the baseline, also after a final optimize; without deletions also statistics and scores.",
+    note=_BOUNDED)
+REGISTRY["C18"] = dict(
+    modules=["harness.c18_configs"],
+    technique="CrossHair symbolic configuration codes (storage x packing x front-end x cut mask x copy_to_ram) over the real storage and writer front-ends; dump vs baseline",
+    text="Every configuration code is executed on the real FileStorage/RamStorage/compound/copy_to_ram and BufferedWriter/AsyncWriter/MpWriter "
+         "code; the logical dump must equal the RamStorage plain-writer baseline and BufferedWriter.searcher() must see committed+buffered.",
+    note=_BOUNDED + "  MpWriter sub-process timing, the async retry thread timing and the flush timer are outside the claim.")
+
 _PENDING = "check not built yet in this round (work in progress; see DESIGN.md section 4)"
 NOT_APPLICABLE = {("C%02d" % i): _PENDING for i in range(1, 21) if ("C%02d" % i) not in REGISTRY}
